@@ -10,6 +10,7 @@ line protocol of the C10 model driver (all numbers decimal, `-` = None, lists co
   st   <state>                                        add a state to the table (start state)
   loc  <loc> <dh|->                                   set_location
   scs  <state>*                                       SetContextState with the proposals
+  bump                                                commit of another transaction (MdibVersion + 1)
   dump                                                the table
   state := h,dh,dv,sv,body,assoc(no|pre|assoc|dis),bindV,unbindV,bindT,unbindT
 
@@ -87,6 +88,9 @@ def stepLine (x : Env × St) (line : String) : (Env × St) × String :=
       let (st', r) := step env st (.setContextState ps)
       ((env, st'), showRes r ++ " " ++ dump st')
     | none => (x, "bad-op")
+  | ["bump"] =>
+    let (st', _) := step env st .otherCommit
+    ((env, st'), "ok")
   | ["dump"] => (x, "ok " ++ dump st)
   | _ => (x, "bad-op")
 
